@@ -282,4 +282,109 @@ theorem negNC_zero_val : ∀ (u : List Nat), Limbs u →
       refine ⟨?_, Or.inr ⟨trivial, by omega⟩, Limbs_cons.mpr ⟨by omega, cl⟩, by rw [cn]⟩
       have e : (B - x) + x = B := by omega
       linear_combination e + B * cv
+/-! ### lshift / rshift -/
+
+theorem B_split (c : Nat) (hc : c ≤ 64) : B = 2 ^ c * 2 ^ (64 - c) := by
+  rw [← pow_add]; unfold B; congr 1; omega
+
+/-- one limb of lshift: the `|` of the shifted limb and the bits carried in is an addition -/
+theorem lshift_limb (x lo c : Nat) (hc : c ≤ 64) (hlo : lo < 2 ^ c) :
+    ((x <<< c) % B ||| lo) + B * (x >>> (64 - c)) = x * 2 ^ c + lo ∧
+    ((x <<< c) % B ||| lo) < B := by
+  have hB := B_split c hc
+  have h1 : (x <<< c) % B = 2 ^ c * (x % 2 ^ (64 - c)) := by
+    rw [Nat.shiftLeft_eq, hB, Nat.mul_comm x, Nat.mul_mod_mul_left]
+  rw [h1, ← Nat.two_pow_add_eq_or_of_lt hlo, Nat.shiftRight_eq_div_pow]
+  have hdm := Nat.div_add_mod x (2 ^ (64 - c))
+  have hlt : x % 2 ^ (64 - c) < 2 ^ (64 - c) := Nat.mod_lt _ (by positivity)
+  constructor
+  · rw [hB]; linear_combination (2 ^ c) * hdm
+  · rw [hB]
+    have : 2 ^ c * (x % 2 ^ (64 - c) + 1) ≤ 2 ^ c * 2 ^ (64 - c) := Nat.mul_le_mul_left _ hlt
+    linarith
+
+theorem shr_lt (x c : Nat) (hc : c ≤ 64) (hx : x < B) : x >>> (64 - c) < 2 ^ c := by
+  rw [Nat.shiftRight_eq_div_pow, Nat.div_lt_iff_lt_mul (by positivity), ← B_split c hc]; exact hx
+
+theorem lshiftGo_val (c : Nat) (hc : c ≤ 64) : ∀ (u : List Nat) (lo : Nat), Limbs u → lo < 2 ^ c →
+    val (lshiftGo c u lo).1 + B ^ u.length * (lshiftGo c u lo).2 = val u * 2 ^ c + lo ∧
+    (lshiftGo c u lo).2 < 2 ^ c ∧ Limbs (lshiftGo c u lo).1 ∧ (lshiftGo c u lo).1.length = u.length
+  | [], lo, _, hlo => by simp [lshiftGo, hlo, Limbs_nil]
+  | x :: xs, lo, h, hlo => by
+    have ⟨hx, hxs⟩ := Limbs_cons.mp h
+    obtain ⟨e, hcur⟩ := lshift_limb x lo c hc hlo
+    obtain ⟨ihv, ihc, ihl, ihn⟩ := lshiftGo_val c hc xs (x >>> (64 - c)) hxs (shr_lt x c hc hx)
+    have step : lshiftGo c (x :: xs) lo = (((x <<< c) % B ||| lo) :: (lshiftGo c xs (x >>> (64 - c))).1,
+        (lshiftGo c xs (x >>> (64 - c))).2) := by simp only [lshiftGo]
+    rw [step]
+    simp only [val_cons, List.length_cons, pow_succ]
+    refine ⟨?_, ihc, Limbs_cons.mpr ⟨hcur, ihl⟩, by rw [ihn]⟩
+    linear_combination e + B * ihv
+
+/-- one limb of rshift -/
+theorem rshift_limb (x c : Nat) (hc : c ≤ 64) :
+    (x >>> c) * B + (x <<< (64 - c)) % B = x * 2 ^ (64 - c) := by
+  have hB := B_split c hc
+  have h1 : (x <<< (64 - c)) % B = 2 ^ (64 - c) * (x % 2 ^ c) := by
+    rw [Nat.shiftLeft_eq, hB, Nat.mul_comm x, Nat.mul_comm (2 ^ c), Nat.mul_mod_mul_left]
+  rw [h1, Nat.shiftRight_eq_div_pow, hB]
+  have hdm := Nat.div_add_mod x (2 ^ c)
+  linear_combination (2 ^ (64 - c)) * hdm
+
+theorem rshift_or (x y c : Nat) (hc : c ≤ 64) (hx : x < B) :
+    ((x >>> c) ||| ((y <<< (64 - c)) % B)) = x >>> c + (y <<< (64 - c)) % B ∧
+    x >>> c + (y <<< (64 - c)) % B < B := by
+  have hB := B_split c hc
+  have h1 : (y <<< (64 - c)) % B = 2 ^ (64 - c) * (y % 2 ^ c) := by
+    rw [Nat.shiftLeft_eq, hB, Nat.mul_comm y, Nat.mul_comm (2 ^ c), Nat.mul_mod_mul_left]
+  have hxs : x >>> c < 2 ^ (64 - c) := by
+    rw [Nat.shiftRight_eq_div_pow, Nat.div_lt_iff_lt_mul (by positivity), Nat.mul_comm, ← hB]; exact hx
+  rw [h1]
+  constructor
+  · rw [Nat.or_comm, ← Nat.two_pow_add_eq_or_of_lt hxs, Nat.add_comm]
+  · have hlt : y % 2 ^ c < 2 ^ c := Nat.mod_lt _ (by positivity)
+    have : 2 ^ (64 - c) * (y % 2 ^ c + 1) ≤ 2 ^ (64 - c) * 2 ^ c := Nat.mul_le_mul_left _ hlt
+    rw [hB]; linarith
+
+theorem rshiftGo_val (c : Nat) (hc : c ≤ 64) : ∀ (xs : List Nat) (x : Nat), Limbs (x :: xs) →
+    val (rshiftGo c (x :: xs)) * B + (x <<< (64 - c)) % B = val (x :: xs) * 2 ^ (64 - c) ∧
+    Limbs (rshiftGo c (x :: xs)) ∧ (rshiftGo c (x :: xs)).length = xs.length + 1
+  | [], x, h => by
+    have ⟨hx, _⟩ := Limbs_cons.mp h
+    have step : rshiftGo c [x] = [x >>> c] := rfl
+    rw [step]
+    simp only [val_cons, val_nil, List.length_cons, List.length_nil]
+    refine ⟨?_, Limbs_cons.mpr ⟨?_, Limbs_nil⟩, trivial⟩
+    · linear_combination rshift_limb x c hc
+    · exact lt_of_le_of_lt (Nat.shiftRight_le _ _) hx
+  | y :: ys, x, h => by
+    have ⟨hx, hys⟩ := Limbs_cons.mp h
+    obtain ⟨ihv, ihl, ihn⟩ := rshiftGo_val c hc ys y hys
+    obtain ⟨eor, hcur⟩ := rshift_or x y c hc hx
+    have step : rshiftGo c (x :: y :: ys) =
+        ((x >>> c) ||| ((y <<< (64 - c)) % B)) :: rshiftGo c (y :: ys) := rfl
+    rw [step, eor]
+    simp only [val_cons, List.length_cons] at ihv ihn ⊢
+    refine ⟨?_, Limbs_cons.mpr ⟨hcur, ihl⟩, by rw [ihn]⟩
+    linear_combination rshift_limb x c hc + B * ihv
+theorem rshift_val' (x : Nat) (xs : List Nat) (c : Nat) (hu : Limbs (x :: xs)) (hc1 : 1 ≤ c) (hc : c ≤ 63) :
+    val (rshift (x :: xs) c).1 * B + (rshift (x :: xs) c).2 = val (x :: xs) * 2 ^ (64 - c) ∧
+    (rshift (x :: xs) c).2 < B ∧ Limbs (rshift (x :: xs) c).1 ∧
+    (rshift (x :: xs) c).1.length = (x :: xs).length ∧
+    val (rshift (x :: xs) c).1 = val (x :: xs) / 2 ^ c ∧
+    (rshift (x :: xs) c).2 = (val (x :: xs) % 2 ^ c) * 2 ^ (64 - c) := by
+  obtain ⟨hv, hl, hlen⟩ := rshiftGo_val c (by omega) xs x hu
+  have step : rshift (x :: xs) c = (rshiftGo c (x :: xs), (x <<< (64 - c)) % B) := rfl
+  rw [step]
+  have hB := B_split c (by omega)
+  have hret : (x <<< (64 - c)) % B < B := Nat.mod_lt _ B_pos
+  refine ⟨hv, hret, hl, hlen, ?_, ?_⟩
+  · have h := congrArg (· / B) hv
+    simp only [Nat.mul_comm _ B, Nat.mul_add_div B_pos, Nat.div_eq_of_lt hret, Nat.add_zero] at h
+    rw [h, hB, Nat.mul_comm (2 ^ c), Nat.mul_comm (val _), Nat.mul_div_mul_left _ _ (by positivity)]
+  · have h := congrArg (· % B) hv
+    simp only [Nat.mul_comm _ B, Nat.mul_add_mod, Nat.mod_eq_of_lt hret] at h
+    show (x <<< (64 - c)) % B = _
+    rw [h, hB, Nat.mul_comm (2 ^ c), Nat.mul_comm (val _), Nat.mul_mod_mul_left, Nat.mul_comm]
+
 end Mpir
